@@ -403,6 +403,13 @@ class Effects:
             evs: list[Event] = []
             if n.kind == "stmt" and isinstance(n.ast, ast.Raise):
                 self._raise_event(f, n.ast, evs)
+                # the message of the exception is built before it is raised: formatting of IR objects in it
+                if n.ast.exc is not None:
+                    for x in ast.walk(n.ast.exc):
+                        if isinstance(x, ast.FormattedValue):
+                            self._format_effects(f, x.value, "repr" if x.conversion == 114 else "str")
+                        elif isinstance(x, ast.Call) and dotted_of(x.func) in ("str", "repr", "format") and x.args:
+                            self._format_effects(f, x.args[0], "repr" if dotted_of(x.func) == "repr" else "str")
             elif n.kind == "stmt" and isinstance(n.ast, ast.Assert):
                 pass  # asserts do not reject (bug guards, stripped under -O)
             elif n.kind == "stmt" and isinstance(n.ast, (ast.FunctionDef, ast.AsyncFunctionDef, ast.ClassDef)):
@@ -503,10 +510,39 @@ class Effects:
             self._emit(f, e.value, evs, loop)
             return
         if isinstance(e, ast.JoinedStr):
-            return  # formatting (repr/str dispatch) is not followed — stated assumption
+            # f-string formatting dispatches to __format__ / __str__ / __repr__ of the formatted object: follow it for
+            # file-system effects (C17: nothing reachable from deserialization or from the cheap accessors may touch
+            # a file - error messages that format an IR object count)
+            for part in e.values:
+                if isinstance(part, ast.FormattedValue):
+                    self._emit(f, part.value, evs, loop)
+                    self._format_effects(f, part.value, "repr" if part.conversion == 114 else "str")
+            return
         for c in ast.iter_child_nodes(e):
             if isinstance(c, (ast.expr, ast.keyword, ast.comprehension, ast.Starred)):
                 self._emit(f, c.value if isinstance(c, ast.keyword) else c, evs, loop)
+
+    def _format_effects(self, f, value: ast.expr, how: str) -> None:
+        """str()/repr()/format() of `value`: propagate the file-system effects of the dunder the object's class defines."""
+        try:
+            classes = self.ty.recv_classes(f, value)
+        except Exception:
+            classes = []
+        s = self._sum[f.key]
+        for c in classes:
+            if c.external:
+                continue
+            names = ("__repr__",) if how == "repr" else ("__format__", "__str__", "__repr__")
+            for nm in names:
+                g = self.repo.lookup(c, nm)
+                if isinstance(g, FuncInfo) and g.cls is not None and not g.cls.external:
+                    gs = self._sum.get(g.key)
+                    if gs is not None:
+                        for k, v in list(gs.fs.items()):
+                            if k not in s.fs:
+                                s.fs[k] = v
+                                s.fs_via[k] = g.key
+                    break
 
     def _store(self, f, t, stmt, evs, loop, aug=False, delete=False) -> None:
         if isinstance(t, (ast.Tuple, ast.List)):
@@ -567,6 +603,12 @@ class Effects:
         s = self._sum[f.key]
         if d in FS_PRIMS:
             s.fs.setdefault(d, FS_PRIMS[d])
+        # explicit and implicit string conversion of IR objects: str(x), repr(x), format(x), "%s" logging arguments
+        if d in ("str", "repr", "format") and len(call.args) >= 1:
+            self._format_effects(f, call.args[0], "repr" if d == "repr" else "str")
+        elif d.startswith(("logger.", "logging.")) and d.rsplit(".", 1)[-1] in ("warning", "error", "critical", "exception", "warn"):
+            for a in call.args[1:]:
+                self._format_effects(f, a, "str")
         if isinstance(call.func, ast.Attribute) and call.func.attr == "tofile" and not self.ty.recv_classes(f, call.func.value):
             rt = self.ty.type_of(f, call.func.value)
             if any(a[0] == "ext" and "ndarray" in a[1] for a in rt):
